@@ -126,7 +126,12 @@ class Session:
                 if rq == z3.unsat:
                     return "discharged", None, "z3(quantified hypotheses)", None
                 if rq == z3.unknown or len(qs) != len(ctx.quantified):
-                    return "unknown", model_to_dict(s.model()) if False else None, "z3", None
+                    # inconclusive: keep the instance-level model as a CANDIDATE counterexample; the
+                    # runner reports a violation only if the native replay reproduces it
+                    s.check()
+                    m = model_to_dict(s.model())
+                    m["__candidate__"] = "model of the instantiated hypotheses only; quantified re-check inconclusive"
+                    return "failed", m, "z3", None
             if r == z3.sat:
                 if getattr(ctx, "quantified", None):
                     s.check()           # restore the model of the instance-level problem
